@@ -38,7 +38,12 @@ UNITS = {
                             cls='bounded (one value of kind Int / Null / UnResolved, empty selection); complete in operator-not x prefix-not',
                             quick=reg('rules::eval', ['k_unsp_empty_int', 'k_unsp_empty_unres', 'k_unsp_empty_nosel', 'k_unsp_empty_null']), thorough=[],
                             assumptions=STUBS + ['Kani stub: record_unary_clause -> trivial recorder (the per-value closure path is not reached by these harnesses)'], timeout=900, mem_gb=12),
-    'U-unary-probe': dict(functions='probe', cls='probe', quick=reg('rules::eval', ['k_unw_exists_int', 'k_unw_empty_unres', 'k_unw_isstring_str']), thorough=[], assumptions=[], timeout=900, mem_gb=12),
+    'U-unary-wiring': dict(functions='eval::unary_operation, per-value path for exists / is_* (which helper is selected, operator-not and prefix-not wiring; not_operation, inverse_operation); record writing stubbed out',
+                           cls='bounded (one value of a matching or non-matching kind per operator); complete in operator-not x prefix-not',
+                           quick=reg('rules::eval', ['k_unw_exists_int', 'k_unw_exists_unres', 'k_unw_isstring_str', 'k_unw_isstring_int', 'k_unw_islist_list', 'k_unw_isbool_bool',
+                                                     'k_unw_isint_int', 'k_unw_isfloat_float', 'k_unw_isnull_null', 'k_unw_ismap_int']), thorough=[],
+                           assumptions=STUBS + ['Kani stub: record_unary_clause -> pass-through of the operation (the ClauseValueCheck record of the per-value path is NOT checked); `empty` on the per-value path exceeds the budget and is not registered'],
+                           timeout=600, mem_gb=8),
     'U-failed': dict(functions='eval_context::report_all_failed_clauses_for_rules', cls='bounded (2 rule records x status x 3 payload-free child configurations)',
                      quick=reg('rules::eval_context', ['k_failed_00', 'k_failed_01', 'k_failed_12', 'k_failed_20', 'k_failed_11']), thorough=[], assumptions=[STUBS[0]], timeout=900, mem_gb=8),
     'U-binflip': dict(functions='operators: impl Comparator for (CmpOperator, bool), CmpOperator, EqOperation, InOperation, CommonOperator, match_value',
@@ -72,8 +77,8 @@ UNITS = {
                    quick=reg(FV, ['k_parse_char_int', 'k_parse_int_int', 'k_parse_int_char']), thorough=[], assumptions=[STUBS[0]], timeout=600),
     'U-substr': dict(functions='functions::strings::substring', cls='bounded (ASCII strings of 0..2 bytes quick, 3 bytes thorough; one 2-byte char + 1 ASCII; all from,to: usize)',
                      quick=reg(FS, ['k_substr_ascii_0', 'k_substr_ascii_1', 'k_substr_ascii_2', 'k_substr_utf8_nopanic', 'k_substr_skips']), thorough=reg(FS, ['k_substr_ascii_3']), assumptions=STUBS, timeout=600, mem_gb=8),
-    'U-join': dict(functions='functions::strings::join', cls='bounded (3 elements of 0 or 1 byte in five length patterns incl. leading / middle / trailing / all empty, one-byte delimiter; empty selection; non-string member; unresolved member)',
-                   quick=reg(FS, ['k_join_edge', 'k_join_111', 'k_join_011', 'k_join_101', 'k_join_110', 'k_join_000']), thorough=[], assumptions=STUBS, timeout=600),
+    'U-join': dict(functions='functions::strings::join', cls='bounded (empty selection; non-string member; unresolved member) -- every concatenation harness exceeded 8 GB and is NOT registered: the element/delimiter order of join is not decided',
+                   quick=reg(FS, ['k_join_edge']), thorough=[], assumptions=STUBS, timeout=600),
     'U-cnf': dict(functions='eval::eval_conjunction_clauses (real generic code, T = forced leaf)',
                   cls='bounded (all shapes of 1 line x <= 3 alternatives and 2 lines x <= 2 alternatives quick; 2 x <= 3 and 3 x <= 2 thorough; every leaf in PASS/FAIL/SKIP/Err)',
                   quick=reg(EV, ['k_cnf_0', 'k_cnf_1_1', 'k_cnf_1_2', 'k_cnf_1_3', 'k_cnf_2_1q', 'k_cnf_2_2q']),
